@@ -22,6 +22,8 @@ func Run(tt *testing.T) func(t *sim.Tape, profile, tier string) *sim.RunResult {
 				kind = runC19(s, tier)
 			case "C16":
 				kind = runC16(s, tier)
+			case "C17":
+				kind = runC17(s, tier)
 			default:
 				kind = runC19(s, tier)
 			}
@@ -33,6 +35,9 @@ func Run(tt *testing.T) func(t *sim.Tape, profile, tier string) *sim.RunResult {
 			res.Stats, res.Violations = s.stats, s.viols
 			res.Stats.Inc("session." + kind)
 			res.Nontrivial = s.stats["net.deliveries"] > 0 || s.stats["merkle.ops"] > 0
+			if profile == "C17" {
+				res.Nontrivial = s.stats["c17.mined"] > 0 || s.stats["c17.v1-validated"] > 0
+			}
 			res.Sample = append([]string{fmt.Sprintf("session kind=%s chunk=%s flip=%d cut=%d stall=%d", kind, s.plan.chunk, s.plan.flipAt, s.plan.cutAt, s.plan.stallAt)}, s.log.Head()...)
 			if len(res.Sample) > 30 {
 				res.Sample = res.Sample[:30]
@@ -164,4 +169,20 @@ func runC16(s *Session, tier string) string {
 	runMerkle(s, ops)
 	s.run(200000)
 	return "merkle"
+}
+
+// runC17 draws a contract-life session.
+func runC17(s *Session, tier string) string {
+	kind := pick(s.t, "contract-v2", "contract-v2", "contract-v2", "contract-v1")
+	switch kind {
+	case "contract-v2":
+		ops := drawContractOps(s.t)
+		s.drawPlan(s.t.Chance(1, 4), 4000)
+		s.plan.flipAt = -1 // the plain RHP4 stream makes no integrity claim; C19 covers altered bytes
+		runContractV2(s, ops)
+		s.run(20000)
+	case "contract-v1":
+		runContractV1(s)
+	}
+	return kind
 }
